@@ -229,7 +229,7 @@ func Numbered(src string) string {
 // of the strict model.
 var quirkDemos = []struct {
 	Quirk, Finding, Source string
-	Expected              Expected
+	Expected               Expected
 }{
 	{
 		Quirk: "tbc-nonclosable-no-position", Finding: "C11-tbc-nonclosable-no-position",
